@@ -510,6 +510,43 @@ Definition s_floor (a : val) : res :=
   | _ => Unmod
   end.
 
+(* Shape: 0 for atoms (also [] and ""), ,#S for a string, and for a list #L followed by the common shape of its
+   members when they are all lists / strings of one shape (row-major); otherwise the list is a vector *)
+Fixpoint s_shape_of (v : val) : list Z :=
+  match v with
+  | VS (c :: s) => [zlen (c :: s)]
+  | VL (x :: r) =>
+      let shapes := map s_shape_of (x :: r) in
+      let sh := hd [] shapes in
+      zlen (x :: r) :: (if forallb (fun t => list_eqb Z.eqb t sh) shapes then sh else [])
+  | _ => []
+  end.
+Definition s_shape (a : val) : val :=
+  match s_shape_of a with [] => VI 0 | sh => VL (map VI sh) end.
+
+Fixpoint has_strlike_atom_member (v : val) : bool :=
+  match v with
+  | VL l => existsb (fun y => match y with VC _ | VY _ | VS [] | VL [] => true | _ => has_strlike_atom_member y end) l
+  | _ => false
+  end.
+
+(* Grade: the indices ordered by (key, index): index i comes at the rank = number of indices before it in that order *)
+Definition s_grade_ranks {K} (ltb : K -> K -> bool) (eqb : K -> K -> bool) (keys : list K) (d : K) : list val :=
+  let n := List.length keys in
+  let before (j i : nat) := ltb (nth j keys d) (nth i keys d) || (eqb (nth j keys d) (nth i keys d) && (j <? i)%nat) in
+  let rank (i : nat) := List.length (filter (fun j => before j i) (seq 0 n)) in
+  flat_map (fun r => flat_map (fun i => if (rank i =? r)%nat then [VI (Z.of_nat i)] else []) (seq 0 n)) (seq 0 n).
+
+Definition num_ltb (a b : val) : bool := num_leb a b && negb (num_eqb a b).
+Definition is_num_vector (a : val) : bool := match rshape a with Some [_] => true | _ => false end.
+
+Fixpoint no_dups {K} (eqb : K -> K -> bool) (l : list K) : bool :=
+  match l with [] => true | x :: r => negb (existsb (eqb x) r) && no_dups eqb r end.
+
+(* Group: for every distinct member, in order of first appearance, the ascending list of its positions *)
+Definition s_group {K} (eqb : K -> K -> bool) (l : list K) : val :=
+  VL (map (fun k => VL (positions_of eqb k 0 l)) (dedup_by eqb [] l)).
+
 Definition s_monad (f : string) (a : val) : res :=
   if fis f "eval_monad_atom" then Ok (b2v (match a with VL (_ :: _) | VS (_ :: _) => false | _ => true end)) else
   if fis f "eval_monad_char" then s1 sc_char a else
@@ -531,6 +568,35 @@ Definition s_monad (f : string) (a : val) : res :=
     (match a with
      | VI x => Ok (VI (Z.abs x)) | VR x => Ok (VR (SFabs x)) | VC c => Ok (VI c)
      | VS s => Ok (VI (zlen s)) | VL l => Ok (VI (zlen l)) | _ => Err end) else
+  if fis f "eval_monad_shape" then Ok (s_shape a) else
+  if fis f "eval_monad_transpose" then
+    (match a with
+     | VL [] => Ok a
+     | VL (VL row :: r) =>
+         Ok (VL (tab (zlen row) (fun j => VL (tab (zlen (VL row :: r)) (fun i => ix VU (members (ix VU (VL row :: r) i)) j)))))
+     | _ => Err end) else
+  if fis f "eval_monad_not" then
+    Ok (b2v (match a with VI z => z =? 0 | VR r => is_real_zero r | VL [] | VS [] => true | _ => false end)) else
+  if fis f "eval_monad_grade_up" then
+    (match a with
+     | VS s => Ok (VL (s_grade_ranks Z.ltb Z.eqb s 0))
+     | VL l => Ok (VL (s_grade_ranks num_ltb num_eqb l VU))
+     | _ => Err end) else
+  if fis f "eval_monad_grade_down" then
+    (match a with
+     | VS s => Ok (VL (s_grade_ranks Z.gtb Z.eqb s 0))
+     | VL l => Ok (VL (s_grade_ranks (fun x y => num_ltb y x) num_eqb l VU))
+     | _ => Err end) else
+  if fis f "eval_monad_groupby" then
+    (match a with
+     | VS s => Ok (s_group Z.eqb s)
+     | VL l => Ok (s_group s_same l)
+     | _ => Err end) else
+  if fis f "eval_monad_range" then
+    (match a with
+     | VS s => Ok (VS (dedup_by Z.eqb [] s))
+     | VL l => Ok (VL (dedup_by s_same [] l))
+     | _ => Err end) else
   Err.
 
 
@@ -547,6 +613,14 @@ Definition dom_monad (f : string) (a : val) : bool :=
   if fis f "eval_monad_reciprocal" then (negb (is_arr a) && is_num a) || all_leaves (fun v => is_num v && negb (is_zero v)) a else
   if fis f "eval_monad_reverse" then true else
   if fis f "eval_monad_size" then (match a with VY _ | VU => false | _ => true end) else
+  if fis f "eval_monad_shape" then (match a with VU => false | _ => true end) else
+  if fis f "eval_monad_transpose" then (match a with VL [] => true | VL _ => (match rshape a with Some [_; S _] => true | _ => false end) | _ => false end) else
+  if fis f "eval_monad_not" then negb (is_arr a) || is_empty a else
+  if fis f "eval_monad_grade_up" then (match a with VS _ => true | VL _ => is_num_vector a | _ => false end) else
+  if fis f "eval_monad_grade_down" then
+    (match a with VS s => no_dups Z.eqb s | VL l => is_num_vector a && no_dups num_eqb l | _ => false end) else
+  if fis f "eval_monad_groupby" then (match a with VS _ => true | VL l => forallb (fun x => negb (is_arr x)) l | _ => false end) else
+  if fis f "eval_monad_range" then (match a with VS _ | VL _ => true | _ => false end) else
   false.
 
 Definition k_monad (f : string) (a : val) : string :=
@@ -557,4 +631,20 @@ Definition k_monad (f : string) (a : val) : string :=
   if fis f "eval_monad_floor" then (if all_leaves floor_fits a then "" else "floor-overflow") else
   if fis f "eval_monad_reverse" then (if negb reverse_guards_atoms && negb (is_list_or_str a) then "reverse-atom" else "") else
   if fis f "eval_monad_list" then (if negb (res_normal (s_monad f a)) then "homogenise" else "") else
+  if fis f "eval_monad_shape" then
+    (match a with
+     | VL (_ :: _) => (match ashape a with Ok _ => if has_strlike_atom_member a then "shape-strlike-member" else "" | _ => "shape-ragged" end)
+     | _ => "" end) else
+  if fis f "eval_monad_groupby" then
+    (match a with
+     | VS s => if list_eqb Z.eqb (dedup_by Z.eqb [] s) (dedup_sorted Z.eqb (map fst (sort_by Z.leb (with_index s)))) then "" else "group-sorted-order"
+     | VL l => if is_num_vector a
+               then (if list_eqb num_eqb (dedup_by num_eqb [] l) (dedup_sorted num_eqb (map fst (sort_by num_leb (with_index l)))) then "" else "group-sorted-order")
+               else "group-non-numeric"
+     | _ => "" end) else
+  if fis f "eval_monad_range" then
+    (match a with
+     | VS s => if list_eqb Z.eqb (dedup_by Z.eqb [] s) (dedup_sorted Z.eqb (map fst (sort_by Z.leb (with_index s)))) then "" else "range-string-sorted"
+     | VL l => if negb (res_normal (s_monad f a)) then "homogenise" else ""
+     | _ => "" end) else
   "".
